@@ -383,7 +383,7 @@ def run(run):
     lv = evalrec.validate(run, lc, name='longchain', kind='long-operator-chain')
     run.evaluations += len(lc)
     run.notes['long_chain_events'] = dict(lv)
-    if lv.get('ok', 0) < len(lc) * 2 // 3:
+    if sum(n for k, n in lv.items() if k != 'open') < len(lc) * 2 // 3:
         raise xl.MachineryError(f'long operator chains: too few judged ({dict(lv)})')
     # function-name matching
     ncases = name_cases()
